@@ -114,6 +114,7 @@ void h_dns_decode(void)
 	__CPROVER_assert(qr != QR_ANSWER || r <= 0 || (buf != NULL && (size_t)r <= buflen), "dns_decode: answer payload length within the caller's buffer");
 	__CPROVER_assert(qr != QR_QUERY || r <= 255, "dns_decode: query name length <= 255");
 	__CPROVER_assert(qr != QR_QUERY || r <= 0 || q->name[255] == 0, "dns_decode: query name NUL-terminated inside q->name");
+	__CPROVER_assert(r < 0 || packetlen < 12 || q->id2 == 0, "dns_decode clears the duplicate id of the query it fills in");
 	__CPROVER_assert(!(g_p < packetlen) || old == packet[g_p], "dns_decode does not write the datagram");
 	VERIF_REACH();
 }
